@@ -141,6 +141,7 @@ def _lookup_run(ctx, pid, mask, profiles, relevant_ops, tags, count_quick, count
 
 def check_C10(ctx):
     fw.coq_prove(ctx, "Props/Properties_C10.v")
+    import checks; checks.also_prove_file(ctx, "Props/Properties_C05_C10_history.v")   # the cache/well-formedness hypotheses hold in every reachable state (Kernel6/HistHyps.v)
     _lookup_run(ctx, "C10", 1, ["lkvalid", "lkdegen", "lksetops", "fans"], {"QLookup"}, C10_TAGS,
                 count_quick=12, count_thorough=60, nops_quick=8, nops_thorough=16)
     ctx.cov["rule"] = ("scripts from gen/lookupgen.py (kgen fragments + fans in given attachment orders + degenerate meshes with parallel edges, "
